@@ -5,8 +5,8 @@ CONSTANTS
   MaxRot = 2
   Dedup = TRUE
   Recheck = TRUE
-  UseTree = TRUE
+  UseTree = FALSE
   TreeAtomic = TRUE
-  ReaderFallback = FALSE
-INVARIANTS NoLoss
+  ReaderFallback = TRUE
+INVARIANTS NoDup NoLoss NoInvent NoDamage NoPartialTree NeverInNeither TypeOK
 CHECK_DEADLOCK FALSE
